@@ -91,6 +91,7 @@ func NewClientWithLogger(
 		cancel,
 		sync.WaitGroup{},
 		sync.Mutex{},
+		sync.Mutex{},
 	}
 }
 
@@ -124,11 +125,17 @@ type client struct {
 	cancelFunc                       context.CancelFunc
 	wg                               sync.WaitGroup // For the read loop.
 	v1ReadMutex                      sync.Mutex     // Serializes reads of the legacy (ATP v1) result path.
+	writeMutex                       sync.Mutex     // Serializes writes to the server (the encoder).
 }
 
+// sendCBOR writes one message to the server. Writers are serialized by a mutex of their own, not by
+// the client mutex: the write lasts until the server reads it (on an unbuffered pipe), and the
+// server stops reading while the client does not consume the server's own messages. Holding the
+// client mutex meanwhile would stop the read loop (which needs it to record results), so neither
+// side could ever move again.
 func (c *client) sendCBOR(message any) error {
-	c.mutex.Lock()
-	defer c.mutex.Unlock()
+	c.writeMutex.Lock()
+	defer c.writeMutex.Unlock()
 	return c.encoder.Encode(message)
 }
 
